@@ -200,8 +200,8 @@ impl<'a> Parser<'a> {
                     State::Origin => {
                         match t {
                             Token::CharData(data) => {
-                                // TODO an origin was specified, should this be legal? definitely confusing...
-                                cx.origin = Some(Name::parse(&data, None)?);
+                                // a relative name is relative to the current origin, as everywhere else
+                                cx.origin = Some(Name::parse(&data, cx.origin.as_ref())?);
                                 State::StartLine
                             }
                             _ => return Err(ParseError::UnexpectedToken(t)),
